@@ -300,6 +300,17 @@ def inputs_for(spec, in_paths, node_kinds, renamed_ids):
                 node["nn"] = "nested-extra"
                 return root
             yield f"nested_extra@{list(npath)}", make
+    # unknown keys that are not strings and not comparable with each other (no full product: base values only)
+    if root_kind == "dict":
+        for hname, hextra in (("int+str", {1: "i", "zz": 1}), ("None+str", {None: 0, "zz": 1}), ("tuple+int", {(1, 2): 0, 0: 1})):
+            def make(hextra=hextra):
+                root = {}
+                for idx, path, (vname, value) in base_combo:
+                    _put(root, path, copy.deepcopy(value), node_kinds)
+                for k, v in hextra.items():
+                    root.setdefault(k, v)
+                return root
+            yield f"hostile_extra={hname}", make
     # wrong kinds of branch nodes
     wrong = [("list", lambda: [1, 2, 3]), ("emptylist", list), ("dict", lambda: {"q": 1}), ("intdict", lambda: {0: 1, 1: 2, 2: 3}),
              ("str", lambda: "abc"), ("none", lambda: None), ("int", lambda: 5), ("emptydict", dict)]
